@@ -209,6 +209,12 @@ func main() {
 	switch *profile {
 	case "c17":
 		runC17(o, r, *n, *replay)
+	case "view":
+		runView(o, r, *n, *replay)
+	case "addfn":
+		runAddFn(o, r, *n, *replay)
+	case "hostile":
+		runHostile(o, r, *n, *replay)
 	default:
 		lib.Fatalf("unknown profile %q", *profile)
 	}
